@@ -433,6 +433,9 @@ def run_history(c, stats):
                     ev["returned_existing_object"] = same[0]
                     pool[-1]["alias_of"] = same[0]
         core.LOG.count("C19.events")
+        stats.cls(("mutate:%s:%s" % (entry["kind"], mut)) if mut else ("op:%s.%s" % (entry["kind"], name)))
+        if ev.get("returned_existing_object") is not None:
+            stats.cls("conversion_returned_an_existing_object:%s.%s" % (entry["kind"], name))
         events.append(ev)
         # ---- online frame monitor
         with core.oracle_mode():
